@@ -5,9 +5,9 @@ from core import Result
 import proto, gen, implutil
 
 THEOREMS = ['C09_shape', 'C09_neg_involutive', 'C09_mirror_involutive', 'C09_amp_consistency', 'C09_monotonicity', 'C09_burst_fraction', 'C09_labels', 'C09_mirror']
-RULE = ("generated signals of all families x option sets of C01 x both burst methods: compute_features(x, center_extrema='trough') against compute_features(-x, "
+RULE = ("generated signals of all families x option sets of C01 x both burst methods x return_samples True / False: compute_features(x, center_extrema='trough') against compute_features(-x, "
         "center_extrema='peak') (two implementation runs; negation is exact in float64): same number of cycles, same sample indices under the documented renaming, "
-        "shape features related by the renaming / negation / 1-x map GENERATED into Lean from rename_extrema_df (applied by the driver), identical burst features and "
+        "shape features related by the renaming / negation / 1-x map GENERATED into Lean from rename_extrema_df (applied by the driver), identical burst features (also the one-sided direction='next' / 'last' consistencies) and "
         "identical is_burst; distinct = distinct (signal, options); non-trivial = >= 3 cycles with differing periods")
 ASSUMPTIONS = ["the dual-threshold detector and amp_by_time are even in the signal (E5); observed here on the implementation",
                "1 - x on the two symmetry fractions is compared within 1e-12 (the flip is one float subtraction)"]
@@ -36,7 +36,7 @@ def generate(ctx):
               if method == 'cycles' else {'burst_fraction_threshold': float(rng.choice([0.5, 1.0])), 'min_n_cycles': int(rng.choice([1, 3]))})
         bk = {'amp_threshes': [0.5, 1.5]} if (method == 'amp' and rng.random() < 0.5) else None
         cases.append(dict(sig=proto.arr2hex(s['sig']), fs=s['fs'], f_range=list(s['f_range']), fk=fk, boundary=(None if rng.random() < 0.5 else int(rng.choice([0, 5, 30]))),
-                          method=method, th=th, bk=bk, family=s['family']))
+                          method=method, th=th, bk=bk, family=s['family'], rs=bool(rng.random() < 0.65)))
     return cases
 
 _objs = {}
@@ -49,7 +49,7 @@ def _run(c, sig, center):
         _objs[id(c)] = (bk, dict(c['th']) if c['th'] else {}, implutil.fe_kwargs(c['fk'], c['boundary'], None))
     bk, th, fek = _objs[id(c)]
     return implutil.twice(lambda: implutil.quiet(compute_features, sig, c['fs'], tuple(c['f_range']), center_extrema=center, burst_method=c['method'], burst_kwargs=bk,
-                                                 threshold_kwargs=th, find_extrema_kwargs=fek), [sig, bk, th, fek], 'compute_features')
+                                                 threshold_kwargs=th, find_extrema_kwargs=fek, return_samples=c.get('rs', True)), [sig, bk, th, fek], 'compute_features')
 
 def _shape_rows(df):
     return '[' + ','.join('[' + ','.join((str(int(df[col].values[i])) if k in INT else proto.enc_rat(float(df[col].values[i]))) for k, col in enumerate(SHAPE)) + ']'
@@ -97,7 +97,10 @@ def evaluate(ctx, cases):
         if len(t) != len(p):
             fail('number of cycles %d vs %d' % (len(t), len(p)))
         else:
-            if implutil.sample_rows(t, 'trough') != implutil.sample_rows(p, 'peak'):
+            if not c.get('rs', True):
+                if any(col.startswith('sample_') for col in list(t.columns) + list(p.columns)):
+                    fail('return_samples=False but the table carries sample columns')
+            elif implutil.sample_rows(t, 'trough') != implutil.sample_rows(p, 'peak'):
                 fail('sample indices differ under the documented renaming')
             exp = ans[pl['j']]
             for i, row in enumerate(exp):
@@ -117,7 +120,15 @@ def evaluate(ctx, cases):
                 a, b = t[col].values, p[col].values
                 if not all((u != u and v != v) or u == v for u, v in zip(a.tolist(), b.tolist())):
                     fail('burst feature / label column %s differs between the two runs' % col); break
-        ctx.hist('method', c['method'])
+            if ok and c.get('rs', True):
+                # the one-sided variants used when burst edges are re-evaluated (direction next / last) mirror as well
+                from bycycle.features.burst import compute_amp_consistency, compute_period_consistency
+                for d in ('next', 'last'):
+                    for f in (compute_amp_consistency, compute_period_consistency):
+                        a, b = implutil.quiet(f, t, direction=d), implutil.quiet(f, p, direction=d)
+                        if not all((u != u and v != v) or u == v for u, v in zip(np.asarray(a, float).tolist(), np.asarray(b, float).tolist())):
+                            fail('%s(direction=%r) differs between the two mirrored tables' % (f.__name__, d)); break
+        ctx.hist('method', c['method']); ctx.hist('return_samples', str(c.get('rs', True)))
         nt = len(t) >= 3 and len(set(t['period'].values)) > 1
         out.append(Result(c, judge_ok=ok, corr_ok=ok, sig=key, nontrivial=nt, info=info))
     return out
